@@ -9,7 +9,7 @@ go result / model result per op:
   prr, pr       : Client.Produce's mapping of a produce response (error code -> Error, Throttle, BaseOffset,
                   LogAppendTime, LogStartOffset, RecordErrors) against produce_error / make_time_ms of the
                   model; prr sweeps ALL 65536 error codes on every run
-  e2e           : go = ok | HANG:<what> | PANIC:<text>;  model = ok | FAIL:<names>, where a name
+  e2e           : go = ok | HANG:<what> | PANIC:<text> | ANOMALY:<record-attrs|completion-attrs>;  model = ok | FAIL:<names>, where a name
                   is an extracted history predicate of Model/Writer.v that evaluated to false on
                   the recorded history, or det:<what> (deterministic scenario: the model RUN with
                   the recorded environment choices differs from the implementation)
@@ -151,6 +151,12 @@ def failures_of_case(c):
             out.append(("C09", "property", "Close did not return within the watchdog", None))
         elif go.startswith("HANG"):
             out.append(("C09", "property", f"a blocked operation did not return within the watchdog ({go})", None))
+        elif go.startswith("ANOMALY:record-attrs"):
+            out.append(("C01", "property", "a record received by the broker differs from the submitted message with that identity "
+                        "(key / timestamp / headers)", None))
+        elif go.startswith("ANOMALY:completion-attrs"):
+            out.append(("C01", "property", "Completion reports a message with a topic / partition / offset other than where the "
+                        "acknowledged produce request appended it", None))
         elif go.startswith("PANIC"):
             out.append(("*", "property", f"the Writer panicked: {go[:200]}", None))
         elif go != "ok":
@@ -162,7 +168,7 @@ def failures_of_case(c):
                     out.append((PRED_PROP[nm], "property", PRED_WHAT[nm], None))
                 elif nm.startswith(CORR_NAMES):
                     out.append(("*", "correspondence",
-                                "deterministic scenario: run of the model differs from the implementation (" + nm + ")"
+                                "deterministic scenario: run of the model differs from the implementation (" + nm.split("@")[0] + ")"
                                 if nm.startswith("det:") else "history not interpretable / fake inconsistent (" + nm + ")", None))
                 else:
                     out.append(("*", "correspondence", "unknown verdict of the model driver: " + nm, None))
@@ -188,7 +194,7 @@ def relevant(prop, c):
     return False
 
 
-TRIVIAL_TAGS = {"callers=1", "sync", "det", "acked-only", "nondet"}
+TRIVIAL_TAGS = {"callers=1", "sync", "det", "acked-only", "nondet", "times=zero"}
 
 
 def nontrivial(c):
@@ -239,7 +245,7 @@ def correspondence_for(prop, ctx, rule_extra=""):
              "the limits; totalSize; partitionWriter.writeMessages call sequences; Client.Produce response mapping on all 65536 error codes (prr) and generated field values (pr)) and end-to-end scenario programs on the real Writer over "
              "the fakert RoundTripper fake (1-8 callers, sync/async, BatchSize 1..10, BatchBytes 60..2000, BatchTimeout 1-20 ms, MaxAttempts 1-4, "
              "fault scripts over acked / applied-but-answer-lost / error code (retriable, permanent; any non-zero int16 incl. the boundary codes -1, -2, -32768, 1, 127, 128, 255, 256, 32767; 42 fixed scenarios put 7 boundary codes at first attempt / after a retry / last attempt, sync and async) / network error (transient, permanent) / "
-             "time-out, topic conflicts, too-large messages first/middle/last, context cancellation, Close racing callers, calls after Close, "
+             "time-out, per-message attributes (Message.Time zero / increasing / equal / DECREASING / sub-millisecond / far apart, headers, nil-empty-long keys, nil-short values, caller-set Offset/Partition), topic conflicts, too-large messages first/middle/last, context cancellation, Close racing callers, calls after Close, "
              "metadata faults); an e2e case counts when both the implementation ran it and the extracted predicates judged its history; "
              "non-trivial = feature vector beyond {1 caller, sync, acked-only}; distinct by hash of op+args. " + rule_extra,
         extra=dict(go_run_s=round(r["go_time"], 1),
